@@ -1,0 +1,26 @@
+//go:build verif
+
+// Package verifhook provides instrumentation points used by the external
+// verification harness.  It is only active when built with the "verif" tag.
+package verifhook
+
+import "sync/atomic"
+
+// Enabled reports whether hooks are compiled in.
+const Enabled = true
+
+// Handler receives an event emitted at a hook site.  A handler may block,
+// which lets the harness use a hook as a scheduling gate.
+type Handler func(event string, args ...interface{})
+
+var handler atomic.Value
+
+// Set installs h as the handler for all hook sites (nil removes it).
+func Set(h Handler) { handler.Store(h) }
+
+// Emit calls the installed handler, if any.
+func Emit(event string, args ...interface{}) {
+	if h, _ := handler.Load().(Handler); h != nil {
+		h(event, args...)
+	}
+}
